@@ -14,6 +14,7 @@ op   = {"t": <kind from table.TYPES> | "nfdata", "name": str, "set": None|str,
 route: "kw" plain keyword | "dict" {'value','units'} dict | "setup" AttrSetup | "later" attribute .value/.units
 """
 import os
+from datetime import datetime, timezone
 
 import numpy as np
 
@@ -346,9 +347,37 @@ def write_kwargs(spec):
     return kw
 
 
-def build_and_write(spec, path, scratch, keep=False):
+def run_prelude(kind, spec, scratch):
+    """An earlier write of another small file in this process, with this specification's write options and record
+    length: 'failed-rows' / 'failed-missing' raise after the metadata records have been produced, 'ok' succeeds."""
+    from dliswriter import DLISFile
+    vrl = (spec.get('sul') or {}).get('vrl', 8192)
+    df = DLISFile(max_record_length=vrl) if vrl != 8192 else DLISFile()
+    lf = df.add_logical_file()
+    lf.add_origin('PRELUDE', file_set_number=7, creation_time=datetime(2001, 2, 3, 4, 5, 6, tzinfo=timezone.utc))
+    n2 = {'failed-rows': 3, 'failed-missing': 5, 'ok': 5}[kind]
+    a = lf.add_channel('PA', data=np.arange(5, dtype=np.float64))
+    if kind == 'failed-missing':
+        b2 = lf.add_channel('PB')       # no data anywhere: the write fails when the frame's data are looked up
+    else:
+        b2 = lf.add_channel('PB', data=np.arange(n2 * 2, dtype=np.int16).reshape(n2, 2))
+    lf.add_frame('PF', channels=(a, b2))
+    kw = {k: v for k, v in write_kwargs(spec).items() if k in ('output_chunk_size', 'input_chunk_size')}
+    try:
+        df.write(os.path.join(scratch, f'prelude{os.getpid()}.dlis'), **kw)
+        return 'written'
+    except Exception:
+        return 'raised'
+
+
+def build_and_write(spec, path, scratch, keep=False, after_prelude=None):
     """Returns dict(outcome='written'|'raised', stage='build'|'write', exc, buf, built)."""
     import contextlib
+    pre = (spec.get('write') or {}).get('prelude')
+    if pre:
+        run_prelude(pre, spec, scratch)
+        if after_prelude:
+            after_prelude()
     ctxm = contextlib.nullcontext()
     if spec.get('hc'):
         from dliswriter import high_compatibility_mode
